@@ -267,6 +267,8 @@ class CoordinateComponent(Component):
             # of the pixel coordinates are the pixel coordinates themselves.
             if isinstance(view, (tuple, list)) and len(view) > 0 and isinstance(view[0], np.ndarray):
                 axis = self._data.ndim - 1 - self.axis
+                # (negative indices count from the end of the axis)
+                view = [np.where(v < 0, v + n, v) for v, n in zip(view, self._data.shape)]
                 return pixel2world_single_axis(self._data.coords, *view[::-1],
                                                world_axis=axis)
 
